@@ -16,6 +16,7 @@ import concurrent.futures
 import hashlib
 import json
 import selectors
+import time
 
 from .. import core
 from ..core import cz, clist, czlist
@@ -602,6 +603,7 @@ def correspondence(run):
     import torch
     torch.set_num_threads(1)
     quick = run.quick
+    t_start = time.time()
     n_sched = 300 if quick else 2500
     max_req = 60 if quick else 400
     cs = core.Cases(ID, "sched", HEADER, CTYPE, CHECK, show=SHOW, shard=20 if quick else 40)
@@ -634,7 +636,9 @@ def correspondence(run):
             oracle_hits += 1
             if oracle_hits <= 3:
                 _report(run, cs, sched, obs, term, bad, "oracle of the property statement on the implementation")
+    t_impl = time.time() - t_start
     failing, shard_fail, nshards = cs.run()
+    core.log(f"[C17] {len(scheds)} schedules: implementation {t_impl:.1f}s, Coq {time.time() - t_start - t_impl:.1f}s")
     run.oblige(f"correspondence:schedules ({nshards} shards)", not shard_fail, str(shard_fail)[:1500])
     tie_ok = (not gaps) or min(gaps) >= TIE_GUARD
     run.oblige("tie-guard: no two causally unrelated events within 50 us in any generated schedule", tie_ok or bool(failing) or oracle_hits > 0,
@@ -700,12 +704,14 @@ def correspondence(run):
                                                      "model_view": csx.model_view(term)}, found_input=False)
 
     # ---- GRPCNetwork.evaluate: float32 words -> bytes -> tensor, bit for bit
-    recs = grpc_roundtrips(run, 40 if quick else 300, 4 if quick else 12, tf)
-    csc = core.Cases(ID, "codec", HEADER, CTYPE_C, CHECK_C, show=SHOW_C, shard=12)
+    recs = grpc_roundtrips(run, 40 if quick else 300, 3 if quick else 12, tf)
+    csc = core.Cases(ID, "codec", HEADER, CTYPE_C, CHECK_C, show=SHOW_C, shard=20)
+    # one file per real-Transformer reply (4572 words + 18288 bytes each): parsed in parallel
+    cscx = core.Cases(ID, "codecx", HEADER, CTYPE_C, CHECK_C, show=SHOW_C, shard=1)
     distinct = set()
     for r in recs:
         cw = r["client_words"] if r["client_words"] is not None else []
-        csc.add(f"({czlist(r['server_words'])}, {czlist(r['bytes'])}, {czlist(cw)}, {cz(r['server_value_bits'])}, {cz(r['client_value_bits'])})",
+        (csc if r["model"] == "hash" else cscx).add(f"({czlist(r['server_words'])}, {czlist(r['bytes'])}, {czlist(cw)}, {cz(r['server_value_bits'])}, {cz(r['client_value_bits'])})",
                 {"rec": {k: (v if not isinstance(v, list) or len(v) <= 64 else v[:64] + ['...']) for k, v in r.items()}})
         distinct.add(hashlib.sha256(json.dumps(r["server_words"]).encode()).hexdigest())
         py_bad = []
@@ -723,6 +729,8 @@ def correspondence(run):
             run.violation("grpc-" + hashlib.sha256(json.dumps(r["encoded"]).encode()).hexdigest()[:10],
                           {"clause": py_bad, "record": {k: (v if not isinstance(v, list) else v[:80]) for k, v in r.items()}})
     failing_c, shard_fail_c, nshc = csc.run()
+    fx, sfx, nx = cscx.run()
+    failing_c, shard_fail_c, nshc = failing_c + fx, shard_fail_c + sfx, nshc + nx
     run.oblige(f"correspondence:GRPCNetwork.evaluate codec ({nshc} shards)", not shard_fail_c, str(shard_fail_c)[:1500])
     run.count(len(recs), len(distinct), "GRPCNetwork.evaluate on played positions through a stub that serves from the virtual loop: "
               "bytes = encode_words(server words), client words = decode_bytes(bytes) = server words, value bits equal (in Coq); "
